@@ -91,7 +91,14 @@ def _run_task(task):
         r["capped"] = True
         return jname, lo, hi, r, None
     try:
+        from vf import guard
+
+        guard.HANGS[0] = 0
         r = func(params, lo, hi)
+        if guard.HANGS[0]:
+            r["counters"]["hangs"] = max(r["counters"].get("hangs", 0), guard.HANGS[0])
+            if guard.HANGS[0] >= 2:
+                r["capped"] = True
         return jname, lo, hi, r, None
     except HarnessError as e:
         return jname, lo, hi, None, "HARNESS: " + str(e)
@@ -182,8 +189,23 @@ def run_check(pid: str, tier: str, seed: int, procs: int, only: str | None = Non
     else:
         pool = ctx.Pool(procs, initializer=_init_worker)
         it = pool.imap_unordered(_run_task, tasks, chunksize=1)
+    stall = float(os.environ.get("VERIF_STALL_S", "1500"))
+
+    def results():
+        if pool is None:
+            yield from it
+            return
+        while True:
+            try:
+                yield it.next(timeout=stall)
+            except StopIteration:
+                return
+            except mp.TimeoutError:
+                harness_errors.append(("*", 0, 0, f"HARNESS: no chunk finished within {stall:.0f}s (a case neither returns nor reacts to SIGALRM)"))
+                return
+
     try:
-        for jname, lo, hi, r, err in it:
+        for jname, lo, hi, r, err in results():
             if err:
                 harness_errors.append((jname, lo, hi, err))
                 continue
